@@ -443,11 +443,12 @@ impl<'a> St<'a> {
                 self.push_base(t, F::from_canonical_u64(v));
                 self.fam("bits", "le_sum");
             }
-            31 if !self.opts.serialisable_only => {
+            31 => {
                 // split_le_base<B>: x must be < B^num_limbs
                 let (x, xv) = self.pb(o.a);
                 let v = xv.to_canonical_u64();
-                let which = frac(o.b, 3);
+                // the default serializer registries only know BaseSumGate<2>
+                let which = if self.opts.serialisable_only { 0 } else { frac(o.b, 3) };
                 let base: u64 = [2, 3, 4][which];
                 let mut need = 1usize;
                 let mut cap: u128 = base as u128;
@@ -658,7 +659,7 @@ impl<'a> St<'a> {
                 self.exts.push((t, v));
                 self.fam("reduce", "reduce_base");
             }
-            53 if self.opts.interpolation && !self.opts.serialisable_only => {
+            53 if self.opts.interpolation => {
                 // coset interpolation, wired exactly as the (crate-private) gadget does
                 let maxbits = if routed >= 1 + 8 * D + 2 * D { 3 } else { 2 };
                 let bits = 1 + frac(o.c, maxbits);
